@@ -10,12 +10,20 @@ Streams
                  plus purity of the may_ segment (slots, arguments, no state change of any model);
   * routing      raising prepare/condition callbacks with and without on_exception handlers on all those classes:
                  raised without handlers, handled (normal return, every handler called) with them.
+  * nested-model (harness/nestedmay.py) generated hierarchical machines (compound / parallel states, local and global
+                 transitions, transitions on ancestors, unresolvable destinations, raising prepare / condition callbacks
+                 with and without on_exception, unknown event names, histories mixing triggers and may_ calls, also
+                 re-entrant from callbacks): implementation trace == trace of the Lean model of
+                 `HierarchicalMachine._can_trigger` / `_can_trigger_nested` (`Model/NestedMay.lean`, for which
+                 C12_nested / C12_nested_pure / C12_nested_baddest / the routing theorems are proved), on
+                 HierarchicalMachine and (single-callback stages) HierarchicalAsyncMachine; purity oracle on every
+                 implementation trace; may-vs-trigger twin oracle on the deterministic descriptions.
 """
 import asyncio
 import inspect
 import random
 
-from .. import common, flat, flatcheck, runner, aflat, anested
+from .. import common, flat, flatcheck, runner, aflat, anested, nestedmay
 from ..common import SLOT
 from ..flat import TRIGGER, MAY, ename
 from ..runner import Exploration, Failure
@@ -529,12 +537,18 @@ class C12(flatcheck.FlatCheck):
     prop = 'C12'
     level = 'proof'
     theorems = ('TM.C12_flat', 'TM.C12_pure', 'TM.C12_unregistered_dest_impossible',
-                'TM.C12_exception_raised_without_handlers', 'TM.C12_exception_routed_with_handlers')
+                'TM.C12_exception_raised_without_handlers', 'TM.C12_exception_routed_with_handlers',
+                # hierarchical engine (Props/C12N.lean)
+                'TM.C12_nested', 'TM.C12_nested_api', 'TM.C12_nested_sound', 'TM.C12_nested_pairs', 'TM.C12_nested_may_spec',
+                'TM.C12_nested_trigger_spec', 'TM.C12_nested_pure', 'TM.C12_nested_baddest', 'TM.C12_nested_baddest_all',
+                'TM.C12_nested_raised_without_handlers', 'TM.C12_nested_routed_with_handlers',
+                'TM.C12_nested_raise_reaches_caller', 'TM.C12_nested_wf_init', 'TM.C12_nested_wf_trigger',
+                'TM.C12_nested_wf_may', 'TM.C12_nested_wf_history', 'TM.C12_nested_destsOK')
     manifest = dict(
         level='proof', design='DESIGN.md 4/C12',
-        text="Lean 4 theorems on the flat engine model: with deterministic non-raising conditions may_<event> returns True exactly when the trigger issued right away executes a transition (C12_flat: both walk the same candidate list and agree on the first candidate whose conditions pass); for EVERY script without re-entrant commands a may_ evaluation leaves the model list, every model's state, the queue and the tag counter untouched and runs only prepare_event/prepare/conditions/unless (and on_exception) callbacks on behalf of that model with the call's arguments (C12_pure); candidates with unregistered destinations are skipped without running anything; exceptions are raised without handlers and routed to them otherwise. Tied to /repo by trace equality on mixed may_/trigger histories, and decided on the hierarchical, locked and async classes by a twin oracle: at every prefix of every generated history, for every model and event name, may_ on one run is compared with the real trigger on an identically prepared twin (flat and nested/parallel configurations), plus purity and routing oracles.",
-        note="Trusted: Lean kernel, Model/Core.lean (canTrigger/mayLoop) tied by trace equality, harness twins. Partial: the hierarchical and async `_can_trigger` copies have no Lean model yet; they are decided by the twin oracle (sampling) only.",
-        technique="Lean 4 proof (induction over the candidate list; frame lemmas) + differential correspondence + may-vs-trigger twin oracle on 6 classes")
+        text="Lean 4 theorems on the flat engine model: with deterministic non-raising conditions may_<event> returns True exactly when the trigger issued right away executes a transition (C12_flat: both walk the same candidate list and agree on the first candidate whose conditions pass); for EVERY script without re-entrant commands a may_ evaluation leaves the model list, every model's state, the queue and the tag counter untouched and runs only prepare_event/prepare/conditions/unless (and on_exception) callbacks on behalf of that model with the call's arguments (C12_pure); candidates with unregistered destinations are skipped without running anything; exceptions are raised without handlers and routed to them otherwise. On the HIERARCHICAL engine model (Model/NestedMay.lean after HierarchicalMachine._can_trigger/_can_trigger_nested, against the dispatch model of C02/C03): for every configuration of states/transitions (compound, parallel, local and machine-level declarations, any handlers/ignore flags/queue), every admissible active configuration (C02's invariant, proved for every reachable configuration of mixed trigger/may_ histories), every deterministic non-raising script and every event whose destinations resolve, may_ returns a Boolean that is True EXACTLY WHEN _trigger_event issued in the same state gets some transition past its conditions (C12_nested; C12_nested_sound without the destination hypothesis); the evaluation and the dispatch visit the same SET of (scope, source) pairs in different orders (C12_nested_pairs) and none of the dispatch's skipping rules (done, exited_states, offered, res[key]) withholds a pair before something executed (ten_spec); the trigger never runs out of fuel; purity for ANY script (C12_nested_pure: configuration, queue, event bookkeeping, ghost log untouched; only evaluation slots); unresolvable destinations are skipped as if absent (C12_nested_baddest); routing theorems. Tied to /repo by trace equality on mixed may_/trigger histories (flat: Machine; nested: HierarchicalMachine and, for single-callback stages, HierarchicalAsyncMachine, incl. re-entrant calls from callbacks, raising callbacks, handlers, unresolvable destinations), and decided on the locked and async classes by a twin oracle: at every prefix of every generated history, for every model and event name, may_ on one run is compared with the real trigger on an identically prepared twin (flat and nested/parallel configurations), plus purity and routing oracles.",
+        note="Trusted: Lean kernel, Model/Core.lean (canTrigger/mayLoop) and Model/NestedMay.lean + Model/NestedDispatch.lean tied by trace equality, harness twins. The async copies of _can_trigger have no model of their own: they differ from the sync code only inside a callback stage (gather; C07) and are compared with the sync model on single-callback stages and by the twin oracle. Re-entrant TRIGGER commands in the nested stream are issued only from callbacks that run in the machine's own scope (NestedState._scope and the unscoped _check_event_result make the engine non-re-entrant elsewhere; not may_'s business).",
+        technique="Lean 4 proof (induction over candidate lists / state trees; frame lemmas; blocked-run vs first-passing-candidate analysis of the hierarchical dispatch) + differential correspondence (flat and nested engine models) + may-vs-trigger twin oracle on 6 classes")
     streams = (
         flatcheck.Stream('flat-model', knobs_flat_model, quick=(16, 200), thorough=(64, 900)),
     )
@@ -542,15 +556,26 @@ class C12(flatcheck.FlatCheck):
             'predict: deterministic configurations (flat / with an imposed state tree incl. parallel states) on 8 class '
             'setups — every (history prefix, model, event name incl. one unknown) is one may-vs-trigger twin comparison; '
             'routing: raising prepare/condition callbacks with/without handlers; non-trivial predict case = both True and '
-            'False answers occur; distinct = (stream, setup, sub-seed)')
+            'False answers occur; distinct = (stream, setup, sub-seed); nested-model*: generated hierarchical machines '
+            '(harness/nested.py trees + unresolvable destinations, raising evaluation callbacks, handlers, re-entrant may_/trigger '
+            'commands) x histories mixing may_ and trigger; non-trivial = both answers of may_ occur in the run; nested-twin*: '
+            'deterministic such machines, every (prefix, event) one may-vs-trigger comparison; distinct by hash of the encoded case')
     trusted = ('hand-written model lean/Model/Core.lean (canTrigger, mayLoop) tied to /repo by trace equality',
+               'hand-written model lean/Model/NestedMay.lean (ncanTrigger, ncanTriggerNested, nmayLoop) over Model/NestedDispatch.lean, '
+               'tied to /repo by trace equality (stream nested-model, harness/nestedmay.py)',
                'twin oracle harness/props/c12.py: determinism of the generated callbacks makes re-running a prefix exact')
 
     def assumptions(self):
         return ['C12_flat assumes deterministic, non-raising conditions without re-entrant commands and registered '
                 'sources/destinations (the statement\'s "with deterministic conditions")',
                 'queued machines are not used for the twin comparison (a queued trigger always returns True)',
-                'auto transitions are disabled in generated machines; to_<state> helpers are C11\'s business']
+                'auto transitions are disabled in generated machines; to_<state> helpers are C11\'s business',
+                'C12_nested: "executes a transition" = some transition of the call gets past its conditions (ghost event exec); '
+                'destinations of the event\'s transitions resolve (unresolvable ones "count as impossible": C12_nested_baddest); '
+                'admissible configuration (C02 invariant, proved for all reachable ones)',
+                'nested stream: re-entrant trigger commands only from callbacks of machine-level transitions (the engine is not '
+                're-entrant for triggers while it is scoped into a state: NestedState._scope, _check_event_result outside '
+                '`with self()`); may_ commands from every callback']
 
     def explore(self, tier, seed):
         ex = flatcheck.FlatCheck.explore(self, tier, seed)
@@ -562,6 +587,25 @@ class C12(flatcheck.FlatCheck):
             fails += part.failures
             part.failures = []
             ex.merge(part)
+        # the hierarchical engine model of may_ (Model/NestedMay.lean): correspondence + oracles
+        nfails = []
+        for part in runner.parallel(nestedmay.chunk, self.nested_payloads(tier, seed)):
+            nfails += part.failures
+            part.failures = []
+            ex.merge(part)
+        ndone = set()
+        for f in nfails:
+            key = (f.kind, f.what)
+            if key not in ndone:
+                ndone.add(key)
+                try:
+                    f.case = runner.shrink(f.case, self.nested_fails_like(f), nestedmay.shrink_steps,
+                                           budget=12 if f.what.startswith('hang') else 200)
+                except common.MachineryError:
+                    raise
+                except BaseException:
+                    pass
+            ex.failures.append(f)
         done = set()
         for f in fails:
             key = (f.kind, f.what)
@@ -572,14 +616,58 @@ class C12(flatcheck.FlatCheck):
             ex.failures.append(f)
         return ex
 
+    NESTED_STREAMS = (  # name, quick (chunks, per chunk), thorough
+        ('nested-model', (16, 110), (48, 500)),
+        ('nested-model-small', (8, 110), (24, 500)),
+        ('nested-model-parallel', (8, 110), (24, 500)),
+        ('nested-model-async', (8, 110), (16, 500)),
+        ('nested-twin', (16, 14), (32, 110)),
+        ('nested-twin-parallel', (8, 14), (16, 110)),
+    )
+
+    def leanchecker(self):
+        import subprocess
+        p = subprocess.run(['lake', 'env', 'leanchecker', 'Props.C12', 'Props.C12N'], cwd=common.LEAN,
+                           stdout=subprocess.PIPE, stderr=subprocess.STDOUT, text=True)
+        if p.returncode != 0:
+            raise common.MachineryError('leanchecker failed: %s' % p.stdout[-1500:])
+
+    def nested_payloads(self, tier, seed):
+        out = []
+        for name, q, t in self.NESTED_STREAMS:
+            nch, per = q if tier == 'quick' else t
+            out += [(seed, i, per, name) for i in range(nch)]
+        return out
+
+    def nested_fails_like(self, f):
+        def fn(case):
+            return any(x.kind == f.kind and x.what == f.what for x in nestedmay.rejudge(case))
+        return fn
+
+    def search(self, tier, seed, failures):
+        found = flatcheck.FlatCheck.search(self, tier, seed, failures)
+        if found:
+            return found
+        # the nested model broke without a property failure in the regular run: the oracles of the nested streams,
+        # fresh seeds, more budget
+        payloads = [(seed + 7919, i, 60, name) for name in ('nested-twin', 'nested-twin-parallel') for i in range(16)]
+        payloads += [(seed + 7919, i, 250, name) for name in ('nested-model', 'nested-model-parallel', 'nested-model-async') for i in range(16)]
+        for part in runner.parallel(nestedmay.chunk, payloads):
+            found += [f for f in part.failures if f.kind == 'monitor']
+        for f in found[:1]:
+            f.case = runner.shrink(f.case, self.nested_fails_like(f), nestedmay.shrink_steps, budget=200)
+        return found
+
     def rejudge(self, case):
+        if case.get('nested_may'):
+            return None, None, None, None, nestedmay.rejudge(case)
         if 'kind' in case:
             fs = [Failure('monitor', w, case, d, signature=s) for w, d, s in judge_twin(case)[0]]
             return None, None, None, None, fs
         return flatcheck.FlatCheck.rejudge(self, case)
 
     def annotate(self, f):
-        if 'kind' in f.case:
+        if 'kind' in f.case or f.case.get('nested_may'):
             return
         flatcheck.FlatCheck.annotate(self, f)
 
@@ -587,6 +675,8 @@ class C12(flatcheck.FlatCheck):
         import json
         with open(path) as fh:
             payload = json.load(fh)
+        if 'case' in payload and payload['case'].get('nested_may'):
+            return nestedmay.replay(payload['case'])
         if 'case' in payload and 'kind' in payload['case']:
             fs = judge_twin(payload['case'])[0]
             for w, d, s in fs:
